@@ -538,7 +538,7 @@ static void COTmrRemove(CO_TMR *tmr, CO_TMR_TIME *tx)
 
             /* loop through used timers in list until timer is removed */
             tn = tmr->Use;
-            do {
+            while ((tn != 0) && (tx != 0)) {
                 /* remove next timer in list */
                 if (tn->Next == tx) {
                     tn->Next = tx->Next;
@@ -553,7 +553,29 @@ static void COTmrRemove(CO_TMR *tmr, CO_TMR_TIME *tx)
                     tx         = 0;
                 }
                 tn = tn->Next;
-            } while((tn != 0) && (tx != 0));
+            }
+
+            /* timer is elapsed, but not processed: remove it from the
+             * elapsed timer list (no time information is affected)
+             */
+            if (tx != 0) {
+                if (tmr->Elapsed == tx) {
+                    tmr->Elapsed = tx->Next;
+                    tx->Next     = tmr->Free;
+                    tmr->Free    = tx;
+                } else {
+                    tn = tmr->Elapsed;
+                    while (tn != 0) {
+                        if (tn->Next == tx) {
+                            tn->Next  = tx->Next;
+                            tx->Next  = tmr->Free;
+                            tmr->Free = tx;
+                            break;
+                        }
+                        tn = tn->Next;
+                    }
+                }
+            }
         }
     }
 }
